@@ -299,12 +299,10 @@ impl WalRecuperator {
 
         let schema = table.schema();
 
-        if let Some(row) =
-            Row::from_bytes_checked_with_snapshot(delete_op.undo(), schema, &snapshot)?
-        {
-            let columns = schema.column_indexes();
-            self.dml_executor.insert(table_id, &columns, &row)?;
-        }
+        // Log images are decoded as written: MVCC visibility must not filter them.
+        let row = Row::from_bytes_checked(delete_op.undo(), schema)?;
+        let columns = schema.column_indexes();
+        self.dml_executor.insert(table_id, &columns, &row)?;
         Ok(())
     }
 
@@ -328,16 +326,11 @@ impl WalRecuperator {
 
         let schema = table.schema();
 
-        if let Some(undo_row) =
-            Row::from_bytes_checked_with_snapshot(update_op.undo(), schema, &snapshot)?
-        {
-            if let Some(redo_row) =
-                Row::from_bytes_checked_with_snapshot(update_op.redo(), schema, &snapshot)?
-            {
-                self.dml_executor
-                    .update_row(table_id, &row_id, &redo_row, &undo_row)?;
-            }
-        }
+        // Log images are decoded as written: MVCC visibility must not filter them.
+        let undo_row = Row::from_bytes_checked(update_op.undo(), schema)?;
+        let redo_row = Row::from_bytes_checked(update_op.redo(), schema)?;
+        self.dml_executor
+            .update_row(table_id, &row_id, &redo_row, &undo_row)?;
         Ok(())
     }
 
@@ -389,17 +382,12 @@ impl WalRecuperator {
 
         let schema = table.schema();
 
-        if let Some(undo_row) =
-            Row::from_bytes_checked_with_snapshot(update_op.undo(), schema, &snapshot)?
-        {
-            if let Some(redo_row) =
-                Row::from_bytes_checked_with_snapshot(update_op.redo(), schema, &snapshot)?
-            {
-                // Redo: apply new state
-                self.dml_executor
-                    .update_row(table_id, &row_id, &undo_row, &redo_row)?;
-            }
-        }
+        // Log images are decoded as written: MVCC visibility must not filter them.
+        let undo_row = Row::from_bytes_checked(update_op.undo(), schema)?;
+        let redo_row = Row::from_bytes_checked(update_op.redo(), schema)?;
+        // Redo: apply new state
+        self.dml_executor
+            .update_row(table_id, &row_id, &undo_row, &redo_row)?;
         Ok(())
     }
 
@@ -419,12 +407,10 @@ impl WalRecuperator {
 
         let schema = table.schema();
 
-        if let Some(row) =
-            Row::from_bytes_checked_with_snapshot(insert_op.redo(), schema, &snapshot)?
-        {
-            let columns = schema.column_indexes();
-            self.dml_executor.insert(table_id, &columns, &row)?;
-        }
+        // Log images are decoded as written: MVCC visibility must not filter them.
+        let row = Row::from_bytes_checked(insert_op.redo(), schema)?;
+        let columns = schema.column_indexes();
+        self.dml_executor.insert(table_id, &columns, &row)?;
         Ok(())
     }
 }
